@@ -80,7 +80,9 @@ def run_tlc(spec: str, cfg: str, metadir: Path, workers: int = 8, extra: list[st
     """Run TLC on SPEC/spec with SPEC/cfg (cfg may be an absolute path). Returns parsed stats + output."""
     metadir.mkdir(parents=True, exist_ok=True)
     cfgp = cfg if os.path.isabs(cfg) else str(SPEC / cfg)
-    jopts = ["-XX:+UseParallelGC", f"-Xmx{heap}"]
+    # (-Xss: the recursive operators of the trace specs walk lists of a few thousand entries; with the default thread stack the depth that
+    #  fits depends on how much of TLC the JIT has compiled by then, i.e. on machine load)
+    jopts = ["-XX:+UseParallelGC", f"-Xmx{heap}", "-Xss64m"]
     if deque:
         jopts.append("-Dtlc2.tool.queue.IStateQueue=StateDeque")
     cmd = ["java", *jopts, "-cp", TLC_JAR_CP, "tlc2.TLC", "-workers", str(workers), "-metadir", str(metadir),
